@@ -153,6 +153,12 @@ QStringList QXmppVCardManager::discoveryFeatures() const
 bool QXmppVCardManager::handleStanza(const QDomElement &element)
 {
     if (element.tagName() == u"iq" && QXmppVCardIq::isVCard(element)) {
+        // vCard requests from other entities are not handled here: leave them to the client, which
+        // answers every unhandled request with an error (RFC 6120, 8.2.3)
+        if (const auto type = element.attribute(u"type"_s); type == u"get" || type == u"set") {
+            return false;
+        }
+
         QXmppVCardIq vCardIq;
         vCardIq.parse(element);
 
